@@ -118,6 +118,8 @@ pub struct LoadExec {
     pub vars_after: Vec<(String, String)>,
     pub hash_probe: String,
     pub log: Vec<Event>,
+    /// `pretty_print()` of the result graph (the text users see)
+    pub pretty: Option<String>,
 }
 
 /// Loads and executes on the current thread.
@@ -133,6 +135,7 @@ fn load_exec_here(text: &str, source: &str, globs: &Globs, lazy: bool, cancel_at
                 vars_after: vec![],
                 hash_probe,
                 log: vec![],
+                pretty: None,
             }
         }
     };
@@ -146,6 +149,7 @@ fn load_exec_here(text: &str, source: &str, globs: &Globs, lazy: bool, cancel_at
         None => SimFlag::counting(),
     };
     simrun::log_clear();
+    let _ = simrun::take_last_pretty();
     let out = simrun::execute(&file, &tree, source, lazy, &fns, &vars, &flag);
     let log = simrun::log_take();
     let after = simrun::variables_snapshot(&vars);
@@ -156,6 +160,7 @@ fn load_exec_here(text: &str, source: &str, globs: &Globs, lazy: bool, cancel_at
         vars_after: after,
         hash_probe,
         log,
+        pretty: simrun::take_last_pretty(),
     }
 }
 
@@ -394,6 +399,10 @@ fn check_a(inp: &Inputs, lazy: bool, envs: &[Env]) -> Result<(AStats, Option<(Fo
         if let Some(f) = diff(&ctl, &r, &format!("control vs hash_seed={:#x} layout={}", e.hash_seed, e.policy.name())) {
             st.hash_classes = probes.len();
             return Ok((st, Some((f, e.clone()))));
+        }
+        if r.pretty != ctl.pretty {
+            st.hash_classes = probes.len();
+            return Ok((st, Some((Found { class: "pretty-print-differs", detail: format!("pretty-printed graphs differ between environments: {:?} vs {:?}", ctl.pretty.as_deref().map(|s| s.chars().take(200).collect::<String>()), r.pretty.as_deref().map(|s| s.chars().take(200).collect::<String>())) }, e.clone()))));
         }
         if r.log != ctl.log {
             st.hash_classes = probes.len();
@@ -975,8 +984,57 @@ fn minimise_inputs(inp: &Inputs, class: &str, test: &dyn Fn(&Inputs) -> Option<F
     best
 }
 
+/// The scheduler interleaves workers at polls, ticks and task boundaries.  That is the finest
+/// useful granularity only while the library keeps no process- or thread-wide mutable state;
+/// this scan of /repo/src reports (it never judges) constructs that would end that assumption.
+fn shared_state_scan() -> Vec<String> {
+    let mut hits = Vec::new();
+    fn walk(d: &std::path::Path, out: &mut Vec<std::path::PathBuf>) {
+        if let Ok(rd) = std::fs::read_dir(d) {
+            for e in rd.flatten() {
+                let p = e.path();
+                if p.is_dir() {
+                    walk(&p, out)
+                } else if p.extension().map(|x| x == "rs").unwrap_or(false) {
+                    out.push(p)
+                }
+            }
+        }
+    }
+    let mut files = Vec::new();
+    walk(std::path::Path::new("/repo/src"), &mut files);
+    files.sort();
+    for f in files {
+        if let Ok(txt) = std::fs::read_to_string(&f) {
+            for (i, line) in txt.lines().enumerate() {
+                let t = line.trim_start();
+                if t.starts_with("//") {
+                    continue;
+                }
+                let is_static = t.starts_with("static ") || t.starts_with("pub static ") || t.starts_with("pub(crate) static ") || t.contains("static mut ");
+                let interior = ["Mutex", "RwLock", "Atomic", "OnceLock", "OnceCell", "LazyLock", "RefCell", "Cell<", "UnsafeCell"].iter().any(|k| t.contains(k));
+                if (is_static && interior) || t.contains("thread_local!") || t.contains("lazy_static!") || t.contains("static mut ") {
+                    hits.push(format!("{}:{}: {}", f.display(), i + 1, t.chars().take(100).collect::<String>()));
+                }
+            }
+        }
+    }
+    hits
+}
+
 pub fn run_shard(ctx: &ShardCtx, rep: &mut Report) {
     alloc::install();
+    if ctx.shard == 0 {
+        let hits = shared_state_scan();
+        rep.add("shared_mutable_state_sites_in_repo", hits.len() as u64);
+        if !hits.is_empty() {
+            rep.notes.push(format!(
+                "C12: /repo/src now declares process- or thread-wide mutable state at {} site(s) (first: {}). Interleavings are explored at poll/tick/task granularity only; a race between two synchronisation operations inside one library call is outside what this check can reach (DESIGN.md 10.4).",
+                hits.len(),
+                hits[0]
+            ));
+        }
+    }
     let total: u64 = match ctx.tier {
         Tier::Quick => ctx.scaled(1600) as u64,
         Tier::Thorough => ctx.scaled(120_000) as u64,
